@@ -176,7 +176,7 @@ def array_groups():
 
     def g(name, props, harness, enforce, what, defines=(), **kw):
         G.append(Group('array.' + name, props, 'P', S, harness, enforce=enforce, sources=src,
-                       defines=list(defines), what=what, unwind=2, replay=harness in ('h_slice', 'h_at', 'h_alloc'), **kw))
+                       defines=list(defines), what=what, unwind=2, replay=(harness in ('h_slice', 'h_at', 'h_alloc', 'h_reset', 'h_unslice') or (harness == 'h_release' and '-DVF_A_EXTERNAL' not in defines)), **kw))
     g('at', ['C14'], 'h_at', 'cstl_array_at_const', 'at on every well-formed view (internal buffer): inside the buffer iff i < size, else abort', covers=['end', 'abort'])
     g('at.external', ['C14'], 'h_at', 'cstl_array_at_const', 'at on every well-formed view of an external buffer', defines=['-DVF_A_EXTERNAL'], covers=['end', 'abort'])
     g('at.empty', ['C14'], 'h_at', 'cstl_array_at_const', 'at on an empty object always aborts', defines=['-DVF_A_EMPTY'], covers=['abort'])
